@@ -211,6 +211,30 @@ def emitter_source(ctx, f, step):
     return good, bad
 
 
+def _stale_source(f, s):
+    """a reader step inside a loop over successive symbols of a strand whose source vertex is invariant in that loop"""
+    if not s.node.loops:
+        return False
+    L = s.node.loops[-1]
+    sym = s.sym
+    if not (sym is not None and sym[0] == 'iter' and sym[2] == L):
+        return False
+    src = sym[1]
+    if is_call(src, 'builtins.enumerate') and src[2]:
+        src = src[2][0]
+    if not (src[0] == 'sub' and src[2][0] == 'slice' and src[1][0] == 'v' and src[1][2] == 'P') and not (src[0] == 'v' and src[2] == 'P'):
+        return False
+    inside = {d.id for d in f.defs if L in f.nodes[d.node].loops}
+    for x in walk_term(s.state):
+        if x[0] in ('iter', 'idx') and x[-1] == L:
+            return False
+        if x[0] == 'v' and isinstance(x[2], tuple) and any(v in inside for v in x[2]):
+            return False
+        if x[0] == 'v' and x[2] not in ('P',) and not isinstance(x[2], tuple):
+            return False
+    return True
+
+
 def loop_of(f, node):
     return node.loops[-1] if node.loops else None
 
@@ -229,6 +253,14 @@ def r_walk(ctx, fqs, floors=None):
         total[fq] = len(steps)
         for i, s in enumerate(steps):
             role = 'walk-step#%d' % (i + 1)
+            if s.reader and _stale_source(f, s):
+                run.refute('R-WALK', f, role + ':source-advances', s.node.lineno,
+                           'the step %s consumes successive symbols of the strand in the loop at line %d, but its source vertex %s does '
+                           'not change from one symbol to the next (a row or vertex read once before the loop): from the second symbol '
+                           'on the walk follows arcs of the first vertex'
+                           % (show(s.term)[:80], f.nodes[s.node.loops[-1]].lineno, show(s.state)[:60]),
+                           extracted=show(s.term), inputs='any strand with two or more symbols after the repaired position')
+                continue
             if s.reader:
                 how = membership_guard(ctx, f, s)
                 if how == 'UNCLASSIFIED':
